@@ -70,16 +70,16 @@ def showBody : Body → String
 
 def b01 (b : Bool) : String := if b then "1" else "0"
 
-/-- `c17serve <v2|root> <fixed:0|1> (<tree>) (<errs>) <req>` → the request's serial outcome and the
-error objects afterwards. `custom` message ids are not compared by the harness beyond "not a status text". -/
+/-- `c17serve <v2|root> (<tree>) (<errs>) <req>` → the serial outcome of the request through
+`ServeHTTP` as it is in /repo now (`serveNow`), and the error objects afterwards. `custom` message ids are not compared by the harness beyond "not a status text". -/
 def opServe (args : List Sexp) : String :=
   match args with
-  | [.atom gen, .atom fixed, .list tree, .list errs, req] =>
+  | [.atom gen, .list tree, .list errs, req] =>
     match treeOfSexp tree, errs.mapM errOfSexp, reqOfSexp req with
     | some tree, some errs, some q =>
       let C := if gen == "root" then constsRoot else constsV2
       let s : Shared := ⟨tree, [], errs, [], 0⟩
-      let r := runAlone s (⟨serveProg C (fixed == "1") q, {}⟩ : Thread Shared Local)
+      let r := runAlone s (⟨serveNow C q, {}⟩ : Thread Shared Local)
       let l := r.2.loc
       if l.crashed then
         s!"crash errs=({" ".intercalate (r.1.errs.map showErr)})"
